@@ -196,9 +196,15 @@ pub fn check_svg(svg: &str, qr: &QRCode, spec: &Spec) -> Result<Counts, V> {
             if images.len() != 1 {
                 return bad("image-element-count", format!("{} <image> elements for one configured image", images.len()));
             }
+            // A TAB, LF or CR written literally into an attribute value reaches the reader as a blank (XML 1.0 3.3.3;
+            // CR LF is one line end, 2.11, and a parser may or may not fold it before normalising): the crate writes
+            // them literally, a writer that used character references would hand back the string itself. All three
+            // readings are "the configured reference"; a writer that DROPS or adds characters matches none of them.
             let href = images[0].attr("href");
-            if href != Some(s.as_str()) {
-                return bad("image-href", format!("href parses to {:?}, configured string is {:?}", href, s));
+            let folded: String = s.replace("\r\n", "\n").chars().map(|c| if matches!(c, '\t' | '\n' | '\r') { ' ' } else { c }).collect();
+            let unfolded: String = s.chars().map(|c| if matches!(c, '\t' | '\n' | '\r') { ' ' } else { c }).collect();
+            if href != Some(s.as_str()) && href != Some(folded.as_str()) && href != Some(unfolded.as_str()) {
+                return bad("image-href", format!("href parses to {:?}, configured string is {:?} (blanks for TAB/LF/CR accepted)", href, s));
             }
             if rest.iter().any(|e| e.name == "path") {
                 return bad("unexpected-element", "more <path> elements than configured layers".into());
